@@ -7,6 +7,7 @@
 
 mod cachecmd;
 mod j;
+mod namescmd;
 mod wirecmd;
 mod zonecmd;
 
@@ -58,6 +59,7 @@ fn main() {
         "wire-decode" => wirecmd::wire_decode(&args[2], &args[3]),
         "wire-roundtrip" => wirecmd::wire_roundtrip(&args[2], &args[3]),
         "wire-encode" => wirecmd::wire_encode(&args[2], &args[3]),
+        "names" => namescmd::names(&args[2], &args[3]),
         "zone-resolve" => zonecmd::zone_resolve(&args[2], &args[3]),
         other => {
             eprintln!("unknown command {other}");
